@@ -316,9 +316,36 @@ def do_pure(w, op):
                 kw = {}
                 if rnd.random() < 0.5:
                     kw["all_solutions"] = True
-                if rnd.random() < 0.4:
+                mode = rnd.choice(["none", "plain", "raises", "observes", "observes"])
+                if mode == "plain":
                     kw["valid"] = lambda s: sum(1 for v in s.values() if v == 1) % 2 == 0
-                fn(o, **kw)
+                elif mode == "raises":
+                    # injected fault: the user's validity callback raises at its k-th invocation (a crash point inside the solver)
+                    state = {"n": 0, "k": rnd.randint(1, 6)}
+
+                    def boom(sol):
+                        state["n"] += 1
+                        if state["n"] >= state["k"]:
+                            raise RuntimeError("injected: validity callback fails")
+                        return True
+                    kw["valid"] = boom
+                    w.fault("callback_raises_inside_solver")
+                elif mode == "observes":
+                    # the callback looks at the very model that is being solved: it must see it unchanged
+                    seen = {"bad": None}
+
+                    def peek(sol):
+                        if seen["bad"] is None and w.snap(A) != before:
+                            seen["bad"] = brief(w.snap(A))
+                        return True
+                    kw["valid"] = peek
+                    w.fault("callback_observes_argument_during_solve")
+                try:
+                    fn(o, **kw)
+                finally:
+                    if mode == "observes" and seen["bad"] is not None:
+                        w.fail("argument_mutated", "%s: while the solver was running, its validity callback saw the model argument changed: %s (was %s)" %
+                               (where, seen["bad"], brief(before)))
             else:
                 ran = False
         elif call == "solve_method":
